@@ -65,6 +65,8 @@ var targets = []target{
 	{"db", "", "FromDbKey", "db_FromDbKey"},
 	{"state", "State", "Down", "state_Down"},
 	{"state", "State", "Up", "state_Up"},
+	{"vm", "", "opSplit", "vm_opSplit"},
+	{"vm", "", "instructionSplit", "vm_instructionSplit"},
 }
 
 type fakeImporter struct {
@@ -452,6 +454,14 @@ func (t *tr) call(x *ast.CallExpr) string {
 				return fmt.Sprintf("(%s %% %d)", a, uint64(1)<<uint(n))
 			}
 		}
+		if isInt(to) && t.useInt {
+			if _, ok := bitsOf(from); ok {
+				return "((" + a + " : Nat) : Int)"
+			}
+			if isInt(from) {
+				return a
+			}
+		}
 		if isBytes(to) && isBytes(from) {
 			return a
 		}
@@ -486,6 +496,18 @@ func (t *tr) call(x *ast.CallExpr) string {
 			}
 		}
 	case *ast.SelectorExpr:
+		if inner, ok := f.X.(*ast.SelectorExpr); ok && f.Sel.Name == "Uint16" && inner.Sel.Name == "BigEndian" && len(x.Args) == 1 && isBytes(t.typeOf(x.Args[0])) {
+			if id, ok := inner.X.(*ast.Ident); ok && id.Name == "binary" && t.partial && t.guarded == 0 {
+				// binary.BigEndian.Uint16(b) reads b[1] (bounds check first) and b[0]
+				b := t.expr(x.Args[0])
+				t.nfresh++
+				lo := fmt.Sprintf("be%d", t.nfresh)
+				t.nfresh++
+				hi := fmt.Sprintf("be%d", t.nfresh)
+				t.pend = append(t.pend, fmt.Sprintf("let %s ← (%s)[1]?", lo, b), fmt.Sprintf("let %s ← (%s)[0]?", hi, b))
+				return "(" + hi + ".toNat * 256 + " + lo + ".toNat)"
+			}
+		}
 		if p, ok := f.X.(*ast.Ident); ok && p.Name == "bytes" && len(x.Args) == 2 && isBytes(t.typeOf(x.Args[0])) && isBytes(t.typeOf(x.Args[1])) {
 			a, b := t.expr(x.Args[0]), t.expr(x.Args[1])
 			switch f.Sel.Name {
@@ -915,6 +937,9 @@ func translate(repo string, tg target) (string, error) {
 		}
 		if c, ok := n.(*ast.CallExpr); ok {
 			if id, ok := c.Fun.(*ast.Ident); ok && id.Name == "panic" {
+				t.partial, t.useInt = true, true
+			}
+			if sel, ok := c.Fun.(*ast.SelectorExpr); ok && sel.Sel.Name == "Uint16" {
 				t.partial, t.useInt = true, true
 			}
 		}
